@@ -43,9 +43,12 @@ pub open spec fn entry_ok(pv: Seq<(real, Seq<real>)>, pd: Seq<Seq<real>>, i: int
 pub open spec fn hist(o: int, dt: real, dtm: real, ym: int, time: real, end: real, pv: Seq<(real, Seq<real>)>, pd: Seq<Seq<real>>, sl: nat, state: Seq<real>, imp: Seq<real>) -> bool {
     let n = pv.len() as int;
     &&& dt > 0real && dt <= dtm && 0 <= ym <= o + 1
-    &&& ((ym == 0 || ym == o) && time >= end) || {
+    // once the end is reached nothing is required any more -- except that no start-up points are still waiting to be yielded
+    &&& (time >= end && (ym == 0 || (ym == o && n != o - 1))) || {
         &&& pd.len() == n && (n == 0 || n == o - 1) && (ym != 0 && ym != o ==> n == o - 1)
         &&& (ym == o ==> sl == state.len())
+        // start-up points that wait for their validating multistep step: that step fits before the end
+        &&& (ym == o && n > 0 ==> time + dt < end)
         &&& forall|i: int| 0 <= i < n - 1 ==> #[trigger] spaced(pv, i, dt)
         &&& forall|i: int| 0 <= i < n ==> #[trigger] entry_ok(pv, pd, i, state.len())
         &&& n > 0 ==> if ym == 0 || ym == o { pv[n - 1] == (time, state) }
@@ -54,7 +57,7 @@ pub open spec fn hist(o: int, dt: real, dtm: real, ym: int, time: real, end: rea
 }
 // the end time has been reached: nothing is required of the history any more
 pub proof fn lemma_hist_done(o: int, dt: real, dtm: real, ym: int, time: real, end: real, pv: Seq<(real, Seq<real>)>, pd: Seq<Seq<real>>, sl: nat, state: Seq<real>, imp: Seq<real>)
-    requires dt > 0real, dt <= dtm, ym == 0 || ym == o, o >= 3, time >= end
+    requires dt > 0real, dt <= dtm, ym == 0 || (ym == o && pv.len() != o - 1), o >= 3, time >= end
     ensures hist(o, dt, dtm, ym, time, end, pv, pd, sl, state, imp)
 { reveal(hist); }
 pub proof fn lemma_hist_empty(o: int, dt: real, dtm: real, ym: int, time: real, end: real, pv: Seq<(real, Seq<real>)>, pd: Seq<Seq<real>>, sl: nat, state: Seq<real>, imp: Seq<real>)
@@ -63,22 +66,24 @@ pub proof fn lemma_hist_empty(o: int, dt: real, dtm: real, ym: int, time: real, 
 { reveal(hist); }
 // what a history that is in use provides
 pub proof fn lemma_hist_use(o: int, dt: real, dtm: real, ym: int, time: real, end: real, pv: Seq<(real, Seq<real>)>, pd: Seq<Seq<real>>, sl: nat, state: Seq<real>, imp: Seq<real>)
-    requires hist(o, dt, dtm, ym, time, end, pv, pd, sl, state, imp), !((ym == 0 || ym == o) && time >= end)
+    requires hist(o, dt, dtm, ym, time, end, pv, pd, sl, state, imp), !(time >= end && (ym == 0 || ym == o))
     ensures dt > 0real, dt <= dtm, 0 <= ym <= o + 1, pd.len() == pv.len(), pv.len() == 0 || pv.len() == o - 1, ym != 0 && ym != o ==> pv.len() == o - 1,
-        ym == o ==> sl == state.len(),
+        ym == o ==> sl == state.len(), ym == o && pv.len() > 0 ==> time + dt < end,
         forall|i: int| 0 <= i < pv.len() - 1 ==> #[trigger] spaced(pv, i, dt),
         forall|i: int| 0 <= i < pv.len() ==> #[trigger] entry_ok(pv, pd, i, state.len()),
         pv.len() > 0 && (ym == 0 || ym == o) ==> pv[pv.len() - 1] == (time, state),
         pv.len() > 0 && !(ym == 0 || ym == o) ==> pv[pv.len() - 1].0 + dt == time && deriv_at(imp, time) && imp.len() == state.len(),
 { reveal(hist); }
 pub proof fn lemma_hist_basic(o: int, dt: real, dtm: real, ym: int, time: real, end: real, pv: Seq<(real, Seq<real>)>, pd: Seq<Seq<real>>, sl: nat, state: Seq<real>, imp: Seq<real>)
-    requires hist(o, dt, dtm, ym, time, end, pv, pd, sl, state, imp)
-    ensures dt > 0real, dt <= dtm, 0 <= ym <= o + 1
+    requires hist(o, dt, dtm, ym, time, end, pv, pd, sl, state, imp), o >= 3
+    ensures dt > 0real, dt <= dtm, 0 <= ym <= o + 1,
+        // C01: start-up points that still wait to be yielded are never abandoned: their validating step fits before the end
+        ym == o && pv.len() == o - 1 ==> time + dt < end
 { reveal(hist); }
 // building a history that is in use
 pub proof fn lemma_hist_intro(o: int, dt: real, dtm: real, ym: int, time: real, end: real, pv: Seq<(real, Seq<real>)>, pd: Seq<Seq<real>>, sl: nat, state: Seq<real>, imp: Seq<real>)
     requires dt > 0real, dt <= dtm, 0 <= ym <= o + 1, pd.len() == pv.len(), pv.len() == o - 1, o >= 3,
-        ym == o ==> sl == state.len(),
+        ym == o ==> sl == state.len() && time + dt < end,
         forall|i: int| 0 <= i < pv.len() - 1 ==> #[trigger] spaced(pv, i, dt),
         forall|i: int| 0 <= i < pv.len() ==> #[trigger] entry_ok(pv, pd, i, state.len()),
         (ym == 0 || ym == o) ==> pv[pv.len() - 1] == (time, state),
@@ -127,4 +132,62 @@ pub proof fn lemma_hist_aside(o: int, dt: real, dtm: real, time: real, end: real
         time2 == time + dt, state2.len() == state.len(), imp2.len() == state.len(), deriv_at(imp2, time2)
     ensures hist(o, dt, dtm, o - 1, time2, end, pv, pd, sl, state2, imp2)
 { reveal(hist); assert forall|i: int| 0 <= i < pv.len() implies #[trigger] entry_ok(pv, pd, i, state2.len()) by { assert(entry_ok(pv, pd, i, state.len())); } }
+'''
+
+
+# ---- C01: what one call of step() does to the solver's clock, and the whole-history lemma over that contract ------
+TRACE_SPEC = r'''
+// the clock contract of a single-step solver (Euler, Runge-Kutta): `t0 -> t1` is what the call did to the solver's time
+pub open spec fn clock_rel(t0: real, end: real, t1: real, r: Result<(R, V), IVPStatus<IVPError>>) -> bool {
+    &&& t0 <= end ==> t1 <= end
+    &&& match r {
+        Ok(p) => t0 < t1,
+        Err(IVPStatus::Done) => t0 >= end && t1 == t0,
+        Err(IVPStatus::Redo) => t1 == t0,
+        Err(IVPStatus::Failure(_)) => true,
+    }
+}
+// a history of step() calls: ts[i] -> ts[i + 1] with result rs[i]
+pub open spec fn clock_history(ts: Seq<real>, rs: Seq<Result<(R, V), IVPStatus<IVPError>>>, end: real) -> bool {
+    ts.len() == rs.len() + 1 && forall|i: int| #![trigger rs[i]] 0 <= i < rs.len() ==> clock_rel(ts[i], end, ts[i + 1], rs[i])
+}
+// between a point and a later one with no accepted step in between the clock stands still
+pub proof fn lemma_clock_still(ts: Seq<real>, rs: Seq<Result<(R, V), IVPStatus<IVPError>>>, end: real, a: int, b: int)
+    requires clock_history(ts, rs, end), 0 <= a <= b <= rs.len(),
+        forall|i: int| a <= i < b ==> !(#[trigger] rs[i] is Ok) && !(rs[i] is Err && rs[i]->Err_0 is Failure)
+    ensures ts[b] == ts[a]
+    decreases b - a
+{
+    if a < b { assert(clock_rel(ts[b - 1], end, ts[b], rs[b - 1])); lemma_clock_still(ts, rs, end, a, b - 1); }
+}
+// C01: a solve that starts before the end, never fails and is answered Done has accepted at least one step, and after its LAST
+// accepted step the clock reads exactly the end time (for Runge-Kutta the yielded time is that clock value)
+pub proof fn lemma_reaches_end(ts: Seq<real>, rs: Seq<Result<(R, V), IVPStatus<IVPError>>>, end: real, k: int)
+    requires clock_history(ts, rs, end), 0 <= k < rs.len(), rs[k] is Err && rs[k]->Err_0 is Done, ts[0] < end,
+        forall|i: int| 0 <= i < k ==> !(#[trigger] rs[i] is Err && rs[i]->Err_0 is Failure)
+    ensures exists|j: int| 0 <= j < k && #[trigger] rs[j] is Ok && ts[j + 1] == end && forall|i: int| j < i < k ==> !(#[trigger] rs[i] is Ok)
+{
+    assert(clock_rel(ts[k], end, ts[k + 1], rs[k]));
+    lemma_last_ok(ts, rs, end, k, k);
+}
+pub proof fn lemma_times_bounded(ts: Seq<real>, rs: Seq<Result<(R, V), IVPStatus<IVPError>>>, end: real, n: int)
+    requires clock_history(ts, rs, end), 0 <= n <= rs.len(), ts[0] <= end
+    ensures ts[n] <= end
+    decreases n
+{ if n > 0 { lemma_times_bounded(ts, rs, end, n - 1); assert(clock_rel(ts[n - 1], end, ts[n], rs[n - 1])); } }
+pub proof fn lemma_last_ok(ts: Seq<real>, rs: Seq<Result<(R, V), IVPStatus<IVPError>>>, end: real, k: int, m: int)
+    requires clock_history(ts, rs, end), 0 <= m <= k < rs.len(), ts[k] >= end, ts[0] < end,
+        forall|i: int| 0 <= i < k ==> !(#[trigger] rs[i] is Err && rs[i]->Err_0 is Failure),
+        forall|i: int| m <= i < k ==> !(#[trigger] rs[i] is Ok)
+    ensures exists|j: int| 0 <= j < k && #[trigger] rs[j] is Ok && ts[j + 1] == end && forall|i: int| j < i < k ==> !(#[trigger] rs[i] is Ok)
+    decreases m
+{
+    if m == 0 { lemma_clock_still(ts, rs, end, 0, k); assert(false); }
+    else if rs[m - 1] is Ok {
+        lemma_clock_still(ts, rs, end, m, k);
+        lemma_times_bounded(ts, rs, end, m);
+        assert(ts[m] == end);
+        assert(rs[m - 1] is Ok && ts[(m - 1) + 1] == end);
+    } else { lemma_last_ok(ts, rs, end, k, m - 1); }
+}
 '''
